@@ -1731,6 +1731,44 @@ def merge_unpack_then_store(func: ast.FunctionDef, keep=frozenset()) -> ast.Func
     return new if changed else func
 
 
+def merge_loop_target_unpack(func: ast.FunctionDef, keep=frozenset()) -> ast.FunctionDef:
+    """``for x in it:`` whose body starts with ``a, b = x`` (new name x, read nowhere else) -> ``for a, b in it:``."""
+    import copy as _copy
+
+    changed = False
+    new = _copy.deepcopy(func)
+    loads: dict[str, int] = {}
+    for n in ast.walk(new):
+        if isinstance(n, ast.Name) and isinstance(n.ctx, ast.Load):
+            loads[n.id] = loads.get(n.id, 0) + 1
+    counts = _store_counts(new)
+    def outer_loads(name):
+        # reads of the function's own variable `name`: a lambda parameter of the same name is another variable
+        total = 0
+        stack = [new]
+        while stack:
+            n = stack.pop()
+            if isinstance(n, ast.Lambda) and any(a.arg == name for a in n.args.args):
+                continue
+            if isinstance(n, ast.Name) and isinstance(n.ctx, ast.Load) and n.id == name:
+                total += 1
+            stack.extend(ast.iter_child_nodes(n))
+        return total
+
+    for lp in ast.walk(new):
+        if not (isinstance(lp, ast.For) and isinstance(lp.target, ast.Name) and lp.body):
+            continue
+        x = lp.target.id
+        st = lp.body[0]
+        if x in keep or counts.get(x) != 1 or outer_loads(x) != 1:
+            continue
+        if isinstance(st, ast.Assign) and len(st.targets) == 1 and isinstance(st.targets[0], ast.Tuple) and isinstance(st.value, ast.Name) and st.value.id == x and all(isinstance(e, ast.Name) for e in st.targets[0].elts) and len(lp.body) > 1:
+            lp.target = ast.copy_location(ast.Tuple(elts=list(st.targets[0].elts), ctx=ast.Store()), lp.target)
+            lp.body = lp.body[1:]
+            changed = True
+    return ast.fix_missing_locations(new) if changed else func
+
+
 def raise_guard_first(func: ast.FunctionDef) -> ast.FunctionDef:
     """``if c: <normal path ending in return>`` followed by a tail that only builds a message and raises
     -> ``if not c: <tail>`` followed by the normal path (the usual guard-clause spelling)."""
@@ -2097,6 +2135,7 @@ class Program:
                     f.node = guard_continue_to_else(f.node)
                     f.node = guard_return_to_else(f.node)
                     f.node = merge_first_rest_loops(f.node, keep=keep_l)
+                    f.node = merge_loop_target_unpack(f.node, keep=keep_l)
                     f.node = splat_literal_star_args(f.node)
                     f.node = dict_update_to_loop(f.node)
                     f.node = hoist_leading_walrus(desugar_reduce(unroll_method_tuple_loops(expand_self_aliases(f.node))))
